@@ -53,6 +53,7 @@ import Sds.Proofs.Codec2
 import Sds.Proofs.LoadWF
 import Sds.Generated.SerConsts
 import Sds.Proofs.SerShapes
+import Sds.Proofs.GenEqSkip
 
 namespace Sds.C14
 open Sds Outcome
@@ -534,5 +535,21 @@ theorem every_serializer_is_a_q_joined_write_sequence :
 
 /-- the obligation is not vacuous: a shape with a discarded result is rejected -/
 example : SerShape.qJoined ⟨"X", [], [.field "len", .other "let _ = self.data.serialize(writer)"], [], []⟩ = false := rfl
+
+/-- **`skip_option` as translated from the source on this run** (`Generated/FnsSkip.lean`: the length prefix,
+`elements * WORD_BYTES`, the copy of at most that many bytes into a sink — the one expression outside the translated subset,
+named `copyTakeSink` — and the comparison `skipped != bytes`) is the specified skip on every stream whose prefix announces
+fewer than 2^61 elements: it moves past the optional structure, and a stream that ends inside it — every strict prefix
+of a serialization — is `Err(UnexpectedEof)`.  (A prefix of 2^61 or more is not a prefix of any serialization; there the
+multiplication overflows: `GenEq.skip_huge_prefix_checked`, `skip_huge_prefix_wrapping`, observation O19.) -/
+theorem skip_option_as_translated_from_source (m : Mode) (es : Elems) (h : ∀ n r, es = n :: r → n.toNat < 2 ^ 61) :
+    Generated.gen_skip_option m es = GenEq.skipSpecR es :=
+  GenEq.skip_option_eq m es h
+
+/-- … so the translated function refuses every stream cut short inside the optional structure -/
+theorem skip_option_translated_refuses_truncation (m : Mode) (n : Word) (r : Elems) (hn : n.toNat < 2 ^ 61)
+    (hcut : r.length < n.toNat) : Generated.gen_skip_option m (n :: r) = fault (.err .eof) := by
+  rw [GenEq.skip_option_eq m (n :: r) (by intro n' r' h; cases h; exact hn)]
+  simp [GenEq.skipSpecR, skipOptionSpec, readElem, Nat.not_le.mpr hcut]
 
 end Sds.C14
